@@ -1,1 +1,45 @@
-// harnesses for module m_empty (included into /repo under cfg(kani))
+// C13: -empty on non-directories is "regular file of size 0" on the selected record.
+use super::*;
+use crate::find::matchers::entry::verif_kani::*;
+use crate::find::matchers::Follow;
+
+fn read_dir_cut<P: AsRef<std::path::Path>>(_p: P) -> std::io::Result<std::fs::ReadDir> { kani::assume(false); unreachable!() }
+
+// @harness props=C13 tier=quick cost=20 flags=nomem
+// @exec EmptyMatcher::matches, WalkEntry::{file_type,metadata} on a cached record
+// @sym status record (all types except directory, all sizes)
+// @bounds one entry; directories excluded (read_dir is FFI: cut); which record is cached is c13_entry_metadata_record's subject
+/// -empty on a non-directory: true iff the record says regular file of size 0.
+#[kani::proof]
+#[kani::unwind(3)]
+#[kani::stub(alloc::fmt::format, fmt_stub)]
+#[kani::stub(<std::io::Stderr as std::io::Write>::write_fmt, wf_stub)]
+#[kani::stub(std::fs::read_dir, read_dir_cut)]
+fn c13_empty_regular() {
+    let (m, st) = any_metadata();
+    kani::assume(!is_type(st.st_mode, libc::S_IFDIR));
+    let entry = entry_with(m, 1, any_follow());
+    let deps = Deps::new();
+    let mut io = MatcherIO::new(&deps);
+    let got = EmptyMatcher::new().matches(&entry, &mut io);
+    assert!(got == (is_type(st.st_mode, libc::S_IFREG) && st.st_size == 0));
+    kani::cover!(got);
+    kani::cover!(!got && is_type(st.st_mode, libc::S_IFREG));
+    kani::cover!(!got && st.st_size == 0);
+    std::mem::forget(entry);
+}
+#[kani::proof]
+#[kani::unwind(3)]
+#[kani::stub(alloc::fmt::format, fmt_stub)]
+#[kani::stub(<std::io::Stderr as std::io::Write>::write_fmt, wf_stub)]
+#[kani::stub(std::fs::read_dir, read_dir_cut)]
+fn c13_empty_regular_canary() {
+    let (m, st) = any_metadata();
+    kani::assume(!is_type(st.st_mode, libc::S_IFDIR));
+    let entry = entry_with(m, 1, Follow::Never);
+    let deps = Deps::new();
+    let mut io = MatcherIO::new(&deps);
+    let got = EmptyMatcher::new().matches(&entry, &mut io);
+    assert!(got == (st.st_size == 0)); // forgets "regular file": must FAIL
+    std::mem::forget(entry);
+}
